@@ -21,3 +21,8 @@ func (rm *Manager) VerifRelatedInformers() common.InformerMap { return rm.relate
 
 // VerifResetCache drops all cached customize responses.
 func (rm *Manager) VerifResetCache() { rm.customizeCache = newResponseCache() }
+
+// VerifOnRelatedAdd/Update/Delete deliver watch events to the related-object handlers.
+func (rm *Manager) VerifOnRelatedAdd(obj interface{})         { rm.onRelatedAdd(obj) }
+func (rm *Manager) VerifOnRelatedUpdate(old, cur interface{}) { rm.onRelatedUpdate(old, cur) }
+func (rm *Manager) VerifOnRelatedDelete(obj interface{})      { rm.onRelatedDelete(obj) }
